@@ -9,12 +9,14 @@
    Rust mixes String::len() (bytes) with chars() (code points).  Slicing that
    can panic and `usize` subtraction that can underflow (debug profile) are
    [Panic].  i32::from_str_radix / u32::from_str are modelled as the standard
-   library documents them; str::parse::<f64> is the oracle argument [pf]
-   (Model/DecFloat.v gives the correctly rounded instance); char::is_numeric on
+   library documents them; str::parse::<f64> is the argument [pf] of the number
+   parser, whose instance [parse_f64] (grammar + correctly rounded conversion
+   through Flocq) is defined here and is what the driver runs; char::is_numeric on
    non-ASCII characters is the oracle argument [uni_numeric].
    No proofs in this file. *)
 From Coq Require Import ZArith NArith List Bool.
-From Flocq Require Import IEEE754.Binary IEEE754.Bits.
+From Coq Require Import Floats.SpecFloat.
+From Flocq Require Import IEEE754.BinarySingleNaN IEEE754.Binary IEEE754.Bits.
 From GV Require Import Base.Result Model.Num.
 Import ListNotations.
 Local Open Scope N_scope.
@@ -176,6 +178,117 @@ Definition u32_from_str (s : str) : option N :=
   end.
 
 Definition err_parse : N := 1.
+
+(* ---- str::parse::<f64> (core::num::dec2flt) ----
+   Grammar, as the standard library documents it:
+     Float  ::= Sign? ( 'inf' | 'infinity' | 'nan' | Number )      (case-insensitive)
+     Number ::= ( Digit+ | Digit+ '.' Digit* | Digit* '.' Digit+ ) Exp?
+     Exp    ::= 'e' Sign? Digit+
+   and the value is the binary64 nearest (ties to even) to the decimal number.
+   The rounding is Flocq's division core + binary_round_aux on the exact
+   integers m * 10^e / 1 or m / 10^-e (Proofs/C14/DecFloat.v: it is the IEEE
+   rounding of the rational).  Exponents that certainly overflow or underflow
+   to zero are decided without computing the power. *)
+Definition is_dec_digit (c : N) : bool := (48 <=? c) && (c <=? 57).
+
+(* digits consumed: (accumulated value, number of digits, rest) *)
+Fixpoint take_digits (s : str) (acc : N) (n : N) : N * N * str :=
+  match s with
+  | c :: r => if is_dec_digit c then take_digits r (acc * 10 + (c - 48)) (n + 1) else (acc, n, s)
+  | [] => (acc, n, [])
+  end.
+
+Definition lower_ascii (c : N) : N := if (65 <=? c) && (c <=? 90) then c + 32 else c.
+Fixpoint str_eqb (a b : str) : bool :=
+  match a, b with
+  | [], [] => true
+  | x :: a', y :: b' => (x =? y) && str_eqb a' b'
+  | _, _ => false
+  end.
+
+(* the part after the sign: Some (mantissa, decimal exponent) *)
+Definition parse_decimal (s : str) : option (N * Z) :=
+  let '(i, ni, r1) := take_digits s 0 0 in
+  let '(m, nf, r2) :=
+    match r1 with
+    | c :: r => if c =? 46 then take_digits r i 0 else (i, 0, r1)
+    | [] => (i, 0, [])
+    end in
+  if ni + nf =? 0 then None else
+  match r2 with
+  | [] => Some (m, (- Z.of_N nf)%Z)
+  | c :: r =>
+      if (c =? 101) || (c =? 69) then
+        let '(neg, r3) :=
+          match r with
+          | x :: r' => if x =? ch_minus then (true, r') else if x =? ch_plus then (false, r') else (false, r)
+          | [] => (false, [])
+          end in
+        match r3 with
+        | d :: _ =>
+            if is_dec_digit d then
+              let '(e, _, r4) := take_digits r3 0 0 in
+              match r4 with
+              | [] => Some (m, ((if neg then - Z.of_N e else Z.of_N e) - Z.of_N nf)%Z)
+              | _ :: _ => None
+              end
+            else None
+        | [] => None
+        end
+      else None
+  end.
+
+Definition f64_nan : binary64 := Binary.B754_nan 53 1024 false 1%positive (eq_refl _).
+
+(* SpecFloat result -> binary64 (the result of binary_round_aux is always valid) *)
+Definition sf_to_b64 (x : SpecFloat.spec_float) : binary64 :=
+  match x with
+  | SpecFloat.S754_zero s => Binary.B754_zero 53 1024 s
+  | SpecFloat.S754_infinity s => Binary.B754_infinity 53 1024 s
+  | SpecFloat.S754_nan => f64_nan
+  | SpecFloat.S754_finite s m e =>
+      match SpecFloat.bounded 53 1024 m e as b return SpecFloat.bounded 53 1024 m e = b -> binary64 with
+      | true => fun H => Binary.B754_finite 53 1024 s m e H
+      | false => fun _ => f64_nan
+      end (eq_refl _)
+  end.
+
+(* correctly rounded mx / my *)
+Definition f64_of_ratio (neg : bool) (mx my : positive) : binary64 :=
+  let '(mz, ez, lz) := SpecFloat.SFdiv_core_binary 53 1024 (Zpos mx) 0 (Zpos my) 0 in
+  sf_to_b64 (BinarySingleNaN.binary_round_aux 53 1024 BinarySingleNaN.mode_NE neg mz ez lz).
+
+Definition f64_of_decimal (neg : bool) (m : N) (e10 : Z) : binary64 :=
+  match m with
+  | N0 => Binary.B754_zero 53 1024 neg
+  | Npos p =>
+      if (310 <=? e10)%Z then Binary.B754_infinity 53 1024 neg        (* >= 10^310 *)
+      else if (10000 * (Z.log2 (Zpos p) + 1) + 33219 * e10 <=? -10750000)%Z
+      then Binary.B754_zero 53 1024 neg                               (* < 2^-1075 *)
+      else if (0 <=? e10)%Z then f64_of_ratio neg (p * Z.to_pos (10 ^ e10)) 1
+      else f64_of_ratio neg p (Z.to_pos (10 ^ (- e10)))
+  end.
+
+Definition parse_f64 (s : str) : option binary64 :=
+  match s with
+  | [] => None
+  | c :: r =>
+      let '(neg, body) :=
+        if c =? ch_minus then (true, r) else if c =? ch_plus then (false, r) else (false, s) in
+      match body with
+      | [] => None
+      | _ :: _ =>
+          match parse_decimal body with
+          | Some (m, e) => Some (f64_of_decimal neg m e)
+          | None =>
+              let l := map lower_ascii body in
+              if str_eqb l [110; 97; 110] then Some f64_nan
+              else if str_eqb l [105; 110; 102] || str_eqb l [105; 110; 102; 105; 110; 105; 116; 121]
+              then Some (Binary.B754_infinity 53 1024 neg)
+              else None
+          end
+      end
+  end.
 
 Section WithOracles.
   (* str::parse::<f64>: None = Err *)
